@@ -19,6 +19,13 @@ def intended_key(meta_custom, ai):
     return next(j for j, (a2, k2) in enumerate(ARGS) if a2 == a and k2 == k)
 
 
+class InitFails(Exception):
+    pass
+
+
+TRAP = {"on": False}        # while on, every __init__ of the harness classes raises (a constructor that fails)
+
+
 def build(case):
     from edgegraph.structure import singleton
     metas = [singleton.semi_singleton_metaclass(CUSTOM[m["custom"]]) if m["custom"] else singleton.semi_singleton_metaclass()
@@ -28,6 +35,8 @@ def build(case):
     for ci, c in enumerate(case["classes"]):
         if c["parent"] is None:
             def __init__(self, *a, **k):
+                if TRAP["on"]:
+                    raise InitFails()
                 if not hasattr(self, "_vlog"):
                     self._vlog = []
                     self._vid = counter["n"]
@@ -52,7 +61,7 @@ class SemiHistory(Leg):
     imports = "From EG Require Import Base SemiSingle."
     checkfn = "sscheck"
     case_type = "list sop * list sobs"
-    rule = ("lock-step histories (4-22 calls) of construction / add_mapping / drop / check / get_all / clear over 2-4 classes: own "
+    rule = ("lock-step histories (4-22 calls) of construction (1 in 7 with an __init__ that raises) / add_mapping / drop / check / get_all / clear over 2-4 classes: own "
             "metaclass each, a metaclass object shared by two classes, subclasses of a semi-singleton class, custom hash functions; "
             "argument pool with distinct values of equal hash (-1 / -2, 0 / 2**61-1), keyword order permutations, nested tuples; "
             "keys are interned by the intended equality, so a key function that conflates or splits them shows as a disagreement; "
@@ -78,9 +87,9 @@ class SemiHistory(Leg):
                 ci = rng.randrange(len(classes))
                 ai = rng.choice(few) if rng.random() < 0.8 else rng.randrange(len(ARGS))
                 if r < 0.5:
-                    ops.append(["C", ci, ai])
+                    ops.append(["C" if rng.random() < 0.85 else "CF", ci, ai])    # CF: the class's __init__ raises this time
                 elif r < 0.6:
-                    prior = [j for j, o in enumerate(ops) if o[0] == "C"]
+                    prior = [j for j, o in enumerate(ops) if o[0] in ("C", "CF")]
                     if prior:
                         ops.append(["ADD", rng.choice(prior), ai])
                 elif r < 0.72:
@@ -104,9 +113,16 @@ class SemiHistory(Leg):
             return ["inst", getattr(x, "_vid", -1), log, classes.index(type(x)) if type(x) in classes else -1]
         for j, op in enumerate(case["ops"]):
             try:
-                if op[0] == "C":
+                if op[0] in ("C", "CF"):
                     a, k = ARGS[op[2]]
-                    x = classes[op[1]](*a, **k)
+                    TRAP["on"] = op[0] == "CF"
+                    try:
+                        x = classes[op[1]](*a, **k)
+                    except InitFails:
+                        obs.append(["initfails"])
+                        continue
+                    finally:
+                        TRAP["on"] = False
                     results[j] = x
                     obs.append(inst_obs(x))
                 elif op[0] == "ADD":
@@ -148,9 +164,12 @@ class SemiHistory(Leg):
         mops = []
         inst_of_op = {}
         for j, (op, o) in enumerate(zip(case["ops"], obs)):
-            if op[0] in ("C", "DROP", "CHK"):
+            if op[0] in ("C", "CF", "DROP", "CHK"):
                 key = intended_key(meta_of(case, op[1])["custom"], op[2])
-            if op[0] == "C":
+            if op[0] in ("C", "CF"):
+                if o[0] == "initfails":
+                    mops.append(None)        # a construction that failed is no step of the model: nothing may have changed
+                    continue
                 mops.append(f"SConstruct {op[1]} {key}")
                 if o[0] == "inst":
                     inst_of_op[j] = (o[1], o[3])
@@ -212,9 +231,15 @@ class SemiHistory(Leg):
         for j, (op, o) in enumerate(zip(case["ops"], obs)):
             if o[0] == "raise":
                 return [f"call {j} {op} raised {o[1]}"]
-            if op[0] in ("C", "DROP", "CHK"):
+            if op[0] in ("C", "CF", "DROP", "CHK"):
                 key = (op[1], intended_key(meta_of(case, op[1])["custom"], op[2]))
-            if op[0] == "C":
+            if op[0] == "CF" and key not in live:
+                if o[0] != "initfails":
+                    return [f"call {j} {op}: __init__ raises for a key that is not live, yet the construction returned {o}"]
+                continue
+            if op[0] in ("C", "CF"):
+                if o[0] == "initfails":
+                    return [f"call {j} {op}: the key is live, so __init__ must not run, yet it ran (and raised)"]
                 if o[0] != "inst":
                     return [f"call {j} {op}: {o}"]
                 inst_of_op[j] = o[1]
@@ -260,7 +285,7 @@ class SemiHistory(Leg):
     def nontrivial(self, case, obs):
         seen = {}
         for op in case["ops"]:
-            if op[0] == "C":
+            if op[0] in ("C", "CF"):
                 seen.setdefault(op[2], set()).add(op[1])
         for ai, cs in seen.items():
             for a in cs:
